@@ -321,7 +321,7 @@ P = {
     "required_classes": _required(),
     "signature": _sig,
     "corrupt": _corrupt,
-    "level_text": "The merge of a client and a server jar is specified at three levels. Lists: merge_preserve_order as the code's cursor machine (three inner loops, no_change exit, tail append), once as coded and once as the law demands, and the declarative law on a result r of lists a, b: every key of either side exactly once, both sides' orders kept whenever the common keys occur in the same relative order, key only in a marked client, only in b marked server, in both unmarked. TLC checks over all 4225 pairs of duplicate-free lists over 4 symbols that the repaired machine satisfies the law, that the law is satisfiable, that scrambled orders admit no order-keeping result, and states exactly where the routine as coded deviates (closed form a ++ (b minus a); it satisfies the law iff the orders are scrambled or no server-only key precedes a common key in b). Classes: identical files passed through byte-identical, one-sided classes marked, differing classes merged level by level. Entries: the Client / Server / Both table with the manifest, signature-file and bundled-library filters exactly as coded, over a pool of 15 names (all rows, all pairs; triples in the thorough tier). Every pair of lists (at the interface, field and method level), every table row, every name pair and 820 class pairs with one-sided / shared-equal / shared-different members are replayed through dukebox::merge::merge on jars assembled by the independent class-file assembler; the merged jar is re-read (central directory walked, classes parsed by the independent parser, Environment / EnvironmentInterface(s) annotations projected to marks) and compared with the law's extension (any admissible order is accepted). A sample of these results and seeded random jar pairs (disjoint / identical / overlapping class sets, member lists up to 8 keys as interleavings, prefixes, suffixes, permutations, resources equal / different, META-INF content, directories, shuffled entry orders) are judged by TLC with the law itself (trace validation).",
+    "level_text": "The merge of a client and a server jar is specified at three levels. Lists: merge_preserve_order as the code's cursor machine (three inner loops, no_change exit, tail append), once as coded and once as the law demands, and the declarative law on a result r of lists a, b: every key of either side exactly once, both sides' orders kept whenever the common keys occur in the same relative order, key only in a marked client, only in b marked server, in both unmarked. TLC checks over all 4225 pairs of duplicate-free lists over 4 symbols that the repaired machine satisfies the law, that the law is satisfiable, that scrambled orders admit no order-keeping result, and states exactly where the routine as coded deviates (closed form a ++ (b minus a); it satisfies the law iff the orders are scrambled or no server-only key precedes a common key in b). Classes: identical files passed through byte-identical, one-sided classes marked, differing classes merged level by level. Entries: the Client / Server / Both table with the manifest, signature-file and bundled-library filters exactly as coded, over a pool of 15 names (all rows, all pairs; triples in the thorough tier). Every pair of lists (at the interface, field and method level), every table row, every name pair and 820 class pairs with one-sided / shared-equal / shared-different members are replayed through dukebox::merge::merge on jars assembled by the independent class-file assembler; the merged jar is re-read (central directory walked, classes parsed by the independent parser, Environment / EnvironmentInterface(s) annotations projected to marks) and compared with the law's extension (any admissible order is accepted). A sample of these results and seeded random jar pairs (disjoint / identical / overlapping class sets, member lists up to 8 keys as interleavings, prefixes, suffixes, permutations, resources equal / different, META-INF content, directories, shuffled entry orders) are judged by TLC with the law itself (trace validation). Below the merge, the jar storage layer every jar operation stands on is specified (JarStore.tla) and bound: the four forms of a jar (UnnamedMemJar, NamedMemJar, FileJar, ParsedJar) behind the traits Jar / OpenedJar / JarEntry show one abstract jar (entry keys, names, lookup by name, kind of an entry by its name alone, the super class provider with its first-position / last-content rule, parsing and writing back with order, contents and last-modified times kept); 2 400 jars of up to three entries are replayed through all four forms.",
     "level_note": "Trusted: TLC and its string operators (prefix / suffix / contains tests on entry names), cfkit (assembler for the inputs, parser for the outputs), the zip crate, the central-directory walker and the annotation-to-mark projection in harness/src/drivers/c13.rs (an annotation of another shape than merge.rs documents is projected as '?', never guessed). Where the property is silent the law accepts the code's choice and the alternatives (content of the merged manifest; which side's differing resource wins; files on which the code's signature filter and the JAR specification disagree: META-INF/*.DSA, *.EC, nested *.SF; member marks inside a one-sided class). Outside the quantifier and not generated: classes whose version, access flags, super class, Deprecated / Synthetic attributes or InnerClasses rows differ between the sides (merge.rs asserts or refuses), duplicate members, unparsable classes. The signature function in lib/propdefs/C13.py names the fault of a record TLC refused (for matching the known finding narrowly); it does not decide.",
     "assumptions": ["TLC/SANY/CommunityModules", "cfkit assembler and parser", "zip crate; central directory walker in drivers/c13.rs",
                     "projection of Environment / EnvironmentInterface(s) annotations to marks (drivers/c13.rs)",
